@@ -590,7 +590,10 @@ def discharge(pc_terms, goal, timeout_ms=10000, use_cvc5=True, extra_hyps=()):
         g = z3.BoolVal(False)
     else:
         g = _t(goal)
-    gs = z3.simplify(g)
+    try:
+        gs = z3.simplify(g)
+    except z3.Z3Exception:
+        gs = g  # (the simplifier can overflow on sequence extracts with symbolic bounds; the solver copes)
     if z3.is_true(gs):
         return Verdict("proved", "simplify", time.time() - t0)
     s = z3.Solver()
